@@ -215,14 +215,9 @@ func c12Signal(n int, unit int) []uint16 {
 	return out
 }
 
-func c12Body(env *simrt.Env) {
-	w := newAbacoSimWorld(env, "C12")
-	w.lowZero = true
-	w.discardWorks = false // no start-up gap: every emitted sample is a known input sample
-	if w.faulted {
-		w.drawFaults(false)
-	}
-	// ---- options
+// c12DrawOptions draws the unwrap options of one run. InvertChan is what a client may send:
+// any order, duplicates, channel numbers the source does not have, empty, a single entry.
+func c12DrawOptions(w *abacoSimWorld) AbacoUnwrapOptions {
 	var opts AbacoUnwrapOptions
 	opts.RescaleRaw = simrt.Draw(5) != 4
 	opts.Unwrap = opts.RescaleRaw && simrt.Draw(5) != 4
@@ -232,16 +227,82 @@ func c12Body(env *simrt.Env) {
 	if simrt.Draw(2) == 1 {
 		opts.PulseSign = -1
 	}
-	for _, g := range w.groups {
-		for c := 0; c < g.nchan; c++ {
+	var list []int
+	switch simrt.Draw(5) {
+	case 0: // a subset of the channels
+		for _, g := range w.groups {
+			for c := 0; c < g.nchan; c++ {
+				if simrt.Draw(3) == 2 {
+					list = append(list, g.firstChan+c)
+				}
+			}
+		}
+	case 1: // empty
+	case 2: // a single entry
+		g := w.groups[simrt.Draw(len(w.groups))]
+		list = append(list, g.firstChan+simrt.Draw(g.nchan))
+	default: // a subset with repeats and with numbers that belong to no group
+		last := w.groups[len(w.groups)-1]
+		for _, g := range w.groups {
+			for c := 0; c < g.nchan; c++ {
+				switch simrt.Draw(5) {
+				case 2, 3:
+					list = append(list, g.firstChan+c)
+				case 4:
+					list = append(list, g.firstChan+c, g.firstChan+c)
+				}
+			}
 			if simrt.Draw(3) == 2 {
-				opts.InvertChan = append(opts.InvertChan, g.firstChan+c)
+				list = append(list, []int{g.firstChan + g.nchan, last.firstChan + last.nchan + 1 + simrt.Draw(50), 9999, -1 - simrt.Draw(3)}[simrt.Draw(4)])
 			}
 		}
 	}
-	if simrt.Draw(2) == 1 {
-		opts.InvertChan = append(opts.InvertChan, 9999) // a channel number that does not exist
+	// the order is the client's: shuffle (a 0-draw keeps the element where it is)
+	for i := 0; i < len(list)-1; i++ {
+		j := i + simrt.Draw(len(list)-i)
+		list[i], list[j] = list[j], list[i]
 	}
+	for i := 1; i < len(list); i++ {
+		if list[i] < list[i-1] {
+			simrt.Hit("invert-list-not-increasing")
+			break
+		}
+	}
+	opts.InvertChan = list
+	return opts
+}
+
+// c12Body runs a history of 1–3 runs on one AbacoSource object: every run has its own
+// options (new ones, or exactly the previous run's) and its own input, and must satisfy the
+// oracle from a fresh state — the output of a run depends on that run's options and input only.
+func c12Body(env *simrt.Env) {
+	w := newAbacoSimWorld(env, "C12")
+	w.lowZero = true
+	var opts AbacoUnwrapOptions
+	for {
+		w.discardWorks = false // no start-up gap: every emitted sample is a known input sample
+		if w.faulted {
+			w.drawFaults(false)
+		}
+		if w.runNo > 0 && simrt.Draw(3) == 2 {
+			simrt.Hit("restart-with-the-same-options")
+		} else {
+			if w.runNo > 0 {
+				simrt.Hit("restart-with-other-options")
+			}
+			opts = c12DrawOptions(w)
+		}
+		c12Run(env, w, opts)
+		if w.runNo+1 >= w.histLen {
+			return
+		}
+		time.Sleep(time.Duration(simrt.Draw(4)) * 70 * time.Millisecond)
+		w = w.nextRun()
+	}
+}
+
+// c12Run is one Configure/Start/…/Stop cycle with the given options.
+func c12Run(env *simrt.Env, w *abacoSimWorld, opts AbacoUnwrapOptions) {
 	nframes := w.npackets * w.fpp
 	w.signal = make([][]uint16, w.nchan)
 	for c := range w.signal {
